@@ -468,6 +468,9 @@ def b_prim(rnd):
                        # type SETS: several scalar types, with and without null
                        {"type": ["string", "integer", "null"]}, {"type": ["boolean", "number", "null"]}, {"type": ["string", "integer"]},
                        {"type": "object", "additionalProperties": {"type": ["boolean", "number", "null"]}}, {"type": "array", "items": {"type": ["string", "integer", "null"]}},
+                       # arrays / maps whose ELEMENTS are nullable (one type + null)
+                       {"type": "array", "items": {"type": ["number", "null"]}}, {"type": "array", "items": {"type": ["string", "null"]}},
+                       {"type": "array", "items": {"type": "array", "items": {"type": ["integer", "null"]}}}, {"type": "object", "additionalProperties": {"type": ["string", "null"]}},
                        # open string with known values whose Rust identifiers collide
                        {"anyOf": [{"type": "string"}, {"type": "string", "enum": ["gpt-4", "gpt_4", "GPT-4", "other"]}]},
                        # unions of const values, alone and next to an open variant
@@ -512,6 +515,17 @@ def b_components(rnd):
             parents = rnd.sample(list(comps), min(len(comps), rnd.randint(1, 3)))
             own = b_object(rnd, [], closed_p=0.0)
             comps[nm] = {"allOf": [{"$ref": f"#/components/schemas/{p}"} for p in parents] + [own]}
+            # `required` that names INHERITED members: in the child's own part, in a part of its own, or next to allOf
+            inherited = sorted(set().union(*[set(b_resolve(comps[p], comps)[0]) for p in parents]) - set(own.get("properties", {})))
+            if inherited and rnd.random() < 0.6:
+                pick = rnd.sample(inherited, min(len(inherited), rnd.randint(1, 2)))
+                how = rnd.randrange(3)
+                if how == 0:
+                    own["required"] = sorted(set(own.get("required", [])) | set(pick))
+                elif how == 1:
+                    comps[nm]["allOf"].append({"required": pick})
+                else:
+                    comps[nm]["required"] = pick
     # a root that refers to everything, plus sibling inline objects differing in annotation-like members
     root_props = {nm.lower(): {"$ref": f"#/components/schemas/{nm}"} for nm in names}
     a = b_object(rnd, [], closed_p=0.5)
